@@ -943,11 +943,12 @@ def pure_mesh_error(ctx, T):
     cases.append(('world-symmetric', 'EPSG:4326', 'EPSG:3857', (-m, -1.5e7, m, 1.5e7), (800, 600)))
     # street level, geographic output: two requests panned by a few pixels (history)
     for _ in range(ctx.n(3, 12)):
-        lon, lat = rng.uniform(-10, 30), rng.uniform(40, 60)
-        rdeg = rng.choice([2.6e-6, 1e-5])
+        # both bboxes agree to four decimals (the pan is smaller than 1e-4 degree and does not cross a multiple of 5e-5)
+        lon, lat = round(rng.uniform(-10, 30), 4) + 1e-5, round(rng.uniform(40, 60), 4) + 1e-5
+        rdeg = rng.choice([7, 26]) * 1e-4 / 256
         size = (256, 256)
         db = (lon, lat, lon + size[0] * rdeg, lat + size[1] * rdeg)
-        pan = rng.choice([3e-5, 6e-5])
+        pan = 3e-5
         cases.append(('pan-first', 'EPSG:3857', 'EPSG:4326', db, size))
         cases.append(('pan-second', 'EPSG:3857', 'EPSG:4326', (db[0] + pan, db[1] + pan / 2, db[2] + pan, db[3] + pan / 2), size))
     src_fixed = None
@@ -993,9 +994,11 @@ def pure_srs(ctx, T):
     import pyproj
     from mapproxy.srs import SRS
     rng = ctx.rng
-    codes = ['EPSG:4326', 'EPSG:3857', 'EPSG:4314', 'EPSG:4230', 'EPSG:4258', 'EPSG:25832', 'EPSG:31467', 'CRS:84', 'EPSG:900913']
+    codes = ['EPSG:4326', 'EPSG:3857', 'EPSG:4314', 'EPSG:4230', 'EPSG:4258', 'EPSG:25832', 'EPSG:31467', 'CRS:84', 'EPSG:900913',
+             # codes of other authorities (history: several of them as targets of the same source SRS object, one after the other)
+             'ESRI:102014', 'ESRI:102013', 'ESRI:54009', 'IGNF:ETRS89UTM28', 'ESRI:102014', 'ESRI:102013']
     trans = {}
-    for _ in range(ctx.n(120, 600)):
+    for _ in range(ctx.n(150, 800)):
         a, b = rng.choice(codes), rng.choice(codes)
         lon, lat = rng.uniform(6, 14), rng.uniform(47, 55)
 
@@ -1012,7 +1015,8 @@ def pure_srs(ctx, T):
         bb = (p[0], p[1], p[0] + d * max(1.0, abs(p[0])), p[1] + d * max(1.0, abs(p[1])))
         st3, gotb = call(lambda: SRS(a).transform_bbox_to(SRS(b), bb))
         ctx.case(('srs', a, b, p), a != b, {'fn': 'SRS.transform_to', 'from': a, 'to': b, 'point': p, 'result': got} if len(ctx.samples) < 6 else None)
-        ctx.count('srs:%s' % ('same' if a == b else 'geographic-geographic' if SRS(a).is_latlong and SRS(b).is_latlong else 'other'))
+        ctx.count('srs:%s' % ('same' if a == b else 'geographic-geographic' if SRS(a).is_latlong and SRS(b).is_latlong else
+                              'to-non-epsg-code' if not b.startswith('EPSG') else 'other'))
         desc = {'from': a, 'to': b, 'point': p, 'mapproxy': got, 'pyproj': want}
         if st != 'ok' or st2 != 'ok' or st3 != 'ok':
             ctx.fail('srs-raises', 'SRS(%s).transform_to(%s) raised %r %r %r' % (a, b, got, got2, gotb), desc)
@@ -1186,6 +1190,12 @@ def correspond(ctx, T, grid_defs):
     ctx.corr_check('wmts_featureinfo_bbox', I, 'grid * wmts_request * (Z * Z * Z) * bbox', T.get('wmts')[0],
                    "fun c => let '(g, r, (col, row, l), obs) := c in obbox_eqb (wmts_bbox g r col row l) (Some obs)",
                    lambda i: T.get('wmts')[1][i], defs=defs, shard=150)
+    ctx.corr_check('e2e_upstream_tile_url_bbox', I, '(grid * bbox * Z * Z) * list (bbox * (Z * Z))', T.get('e2e_tilebbox')[0],
+                   "fun c => let '((g, b, sx, sy), obs) := c in "
+                   "match cache_map_plan g b sx sy with "
+                   "| Mosaic l ab nx ny ts => same_request_set (map (fun t : Z * Z * Z => let '(x, y, l') := t in (tile_bbox g x y l', (0, 0))) (somes ts)) obs "
+                   "| _ => match obs with [] => true | _ => false end end",
+                   lambda i: T.get('e2e_tilebbox')[1][i], defs=defs, shard=60)
     ctx.corr_check('e2e_upstream_tile_requests', I, '(grid * bbox * Z * Z) * list (Z * Z * Z)', T.get('e2e_tiles')[0],
                    "fun c => let '((g, b, sx, sy), obs) := c in "
                    "match cache_map_plan g b sx sy with "
@@ -1285,6 +1295,12 @@ class Upstream(object):
             rect = [float(v) for v in gc.tile_rect(x, y, z)]
             return FakeResponse(self.render(rect, (gc.tw, gc.th)), 'image/png')
         q = dict((k.lower(), v) for k, v in parse_qsl(u.query, keep_blank_values=True))
+        if u.path == '/tilewms':
+            # tile url template with %(bbox)s: the rectangle comes with the request, the size is the tile size
+            gc, nw = self.tile_grids['g1']
+            bbox = tuple(float(v) for v in q['bbox'].split(','))
+            self.requests.append({'kind': 'tilebbox', 'bbox': bbox, 'level': int(q['z']), 'url': url})
+            return FakeResponse(self.render(bbox, (gc.tw, gc.th)), 'image/png')
         req = q.get('request', '').lower()
         version = q.get('version') or q.get('wmtver')
         code = q.get('crs') or q.get('srs')
@@ -1453,6 +1469,9 @@ def wms_url(version, layer, bbox, size, code, ne, extra=''):
             % (version, layer, 'CRS' if version == '1.3.0' else 'SRS', code, ','.join(repr(float(v)) for v in b), size[0], size[1], extra))
 
 
+TILE_CONFS = [0]
+
+
 def e2e_conf(rng, gc, kind):
     """configuration for one grid; returns (conf, info)"""
     code = gc.conf['srs']
@@ -1480,6 +1499,11 @@ def e2e_conf(rng, gc, kind):
         gs['origin'] = 'ul' if nw else 'll'
         conf['grids']['gs'] = gs
         conf['sources']['src'] = {'type': 'tile', 'url': 'http://up/tiles/g1/%(z)s/%(x)s/%(y)s.png', 'grid': 'gs'}
+        TILE_CONFS[0] += 1
+        if TILE_CONFS[0] % 2 == 1:
+            # (every other tile configuration of a run) a WMS used as tile server: the rectangle of the tile is put into the url
+            conf['sources']['src']['url'] = 'http://up/tilewms?layers=a&bbox=%(bbox)s&z=%(z)s'
+            info['tile_url_bbox'] = True
         conf['caches']['c1'].pop('meta_size')
         conf['caches']['c1'].pop('meta_buffer')
         info.update({'tile_origin_nw': nw, 'meta_size': [1, 1], 'meta_buffer': 0})
@@ -1602,7 +1626,7 @@ def e2e_same_srs(ctx, T, grids_defs):
             return orig_ti.transform(self, req_bbox, req_srs, out_size, image_opts)
     cache_tile.TiledImage = RecTiledImage
     try:
-        nconf = ctx.n(18, 80)
+        nconf = ctx.n(13, 80)
         kinds = ['wms', 'downscale', 'tiles', 'coverage', 'direct', 'cascade', 'upscale', 'wms', 'downscale']
         for ci in range(nconf):
             kind = kinds[ci % len(kinds)]
@@ -1674,6 +1698,17 @@ def e2e_same_srs(ctx, T, grids_defs):
                     up_res = max(max((r['bbox'][2] - r['bbox'][0]) / r['size'][0], (r['bbox'][3] - r['bbox'][1]) / r['size'][1]) for r in maps)
                 elif tiles:
                     up_res = max(float(gc.res[r['tile'][2]]) for r in tiles)
+                tbs = [r for r in up.requests if r['kind'] == 'tilebbox']
+                if tbs:
+                    up_res = max(max((r['bbox'][2] - r['bbox'][0]) / gc.tw, (r['bbox'][3] - r['bbox'][1]) / gc.th) for r in tbs)
+                    # oracle: the rectangle in the url is a whole tile of the level (the stored image is georeferenced with it)
+                    for r in tbs:
+                        rl = gc.res[r['level']]
+                        fb = [frac(v) for v in r['bbox']]
+                        if fb[2] - fb[0] != rl * gc.tw or fb[3] - fb[1] != rl * gc.th:
+                            ctx.fail('e2e:tile-url-bbox', 'tile url asks for the rectangle %r at level %d: not a whole tile (%s x %s expected)' % (
+                                r['bbox'], r['level'], float(rl * gc.tw), float(rl * gc.th)), dict(rep, upstream=[x['url'] for x in tbs][:6]))
+                            break
                 for r in maps:
                     if r['srs'] != code:
                         ctx.fail('e2e:upstream-srs', 'upstream asked in %s, expected %s' % (r['srs'], code), rep)
@@ -1709,6 +1744,10 @@ def e2e_same_srs(ctx, T, grids_defs):
                         obs = llit(maps, lambda r: '(%s, %s)' % (gc.zbbox(r['bbox']), zz(r['size'])))
                         T.add('e2e_wms', '(%s, %d, %d, %d, %s)' % (plan, info['meta_size'][0], info['meta_size'][1], info['meta_buffer'], obs),
                               {'conf': conf, 'request': url, 'upstream': [(r['bbox'], r['size']) for r in maps]})
+                    elif kind == 'tiles' and info.get('tile_url_bbox'):
+                        if all(gc.can_scale(*r['bbox']) for r in tbs):
+                            obs = llit(tbs, lambda r: '(%s, (0, 0))' % gc.zbbox(r['bbox']))
+                            T.add('e2e_tilebbox', '(%s, %s)' % (plan, obs), {'conf': conf, 'request': url, 'upstream': [r['bbox'] for r in tbs]})
                     elif kind == 'tiles':
                         # url rows are numbered from the configured origin of the source
                         def internal(t):
@@ -1932,7 +1971,7 @@ def e2e_featureinfo_transformed(ctx):
             from_ll = pyproj.Transformer.from_crs('EPSG:4326', csrs, always_xy=True)
             to_up = pyproj.Transformer.from_crs(csrs, usrs, always_xy=True)
             ne = bool(SRS(csrs).is_axis_order_ne)
-            for ri in range(ctx.n(6, 24)):
+            for ri in range(ctx.n(4, 24)):
                 lon, lat = rng.uniform(6.5, 13.5), rng.uniform(47.5, 54.5)
                 x0, y0 = from_ll.transform(lon, lat)
                 size = rng.choice([(256, 256), (600, 300), (333, 500)])
@@ -1997,7 +2036,7 @@ def e2e_srs_extent(ctx, T):
             conf['services']['wms']['image_formats'] = ['image/png', 'image/tiff']
             conf['services'].pop('wmts', None)
             info['extent'] = ext
-            for ri in range(ctx.n(5, 10)):
+            for ri in range(ctx.n(4, 10)):
                 bbox, size, rkind = request_for(rng, gc, aligned=rng.choice(['shifted', 'scaled', 'edge', 'tiles']))
                 if rng.random() < 0.6:
                     # across a border of the configured extent
@@ -2144,7 +2183,7 @@ def e2e_reprojected(ctx):
                 continue
             ctx.count('e2e:reprojection=' + variant)
             prev_bbox = None
-            for ri in range(ctx.n(4, 8)):
+            for ri in range(ctx.n(3, 8)):
                 # a request somewhere in Europe / North America, a few hundred metres to a few hundred km wide
                 lon, lat = rng.uniform(-120, 40), rng.uniform(-55, 65)
                 size = rng.choice([(256, 256), (300, 200), (400, 400)])
@@ -2163,8 +2202,8 @@ def e2e_reprojected(ctx):
                         lat = -90 + math.floor((lat + 90) / (rdeg * 256)) * rdeg * 256
                     bbox = (lon, lat, lon + size[0] * rdeg, lat + size[1] * rdeg)
                 elif variant.startswith('street'):
-                    lon, lat = rng.uniform(-10, 30), rng.uniform(40, 60)
-                    rdeg = rng.choice([2.6e-6, 5e-6])
+                    lon, lat = round(rng.uniform(-10, 30), 4) + 1e-5, round(rng.uniform(40, 60), 4) + 1e-5
+                    rdeg = rng.choice([7, 13]) * 1e-4 / 256
                     size = (256, 256)
                     if ri % 2 == 1:
                         # history: the previous request again, panned by a few pixels (less than 1e-4 degree)
@@ -2289,6 +2328,7 @@ def replay_corpus(ctx):
 
 def run(ctx):
     T = Table()
+    TILE_CONFS[0] = 0
     try:
         replay_corpus(ctx)
     except Exception as e:  # noqa
